@@ -260,7 +260,7 @@ func checkC14(r *Run) propMeta {
 	checkDecoderWrapsSource(r, p)
 	checkCountAccessors(r, p)
 	checkProjectionCountsFiltered(r, p)
-	r.Floor("C14-R8-decoder-wraps-source", 2)
+	r.Floor("C14-R8-decoder-wraps-source", 1)
 	r.Floor("C14-R9-count-accessors", 3)
 	r.Floor("C14-R4-stored-set-readonly", 8)
 	r.Floor("C14-R1-direction-exhaustive", 6)
